@@ -547,7 +547,7 @@ func trace(c *eng.Ctx, t int, rng *rand.Rand) {
 			}
 			h.mu.Unlock()
 		case x < 18: // graceful Close and restart on the same file
-			h.closeAndRestart(w, tc, rng, mk)
+			h.closeAndRestart(w, tc, rng, mk, syncDone)
 		case x < 19 && rng.Intn(2) == 0: // Find (read-only observation of the table)
 			q := [][]string{{"t1", "t2"}, {"t3"}}[rng.Intn(2)]
 			name := ""
@@ -652,7 +652,8 @@ func trace(c *eng.Ctx, t int, rng *rand.Rand) {
 // closeAndRestart calls Close on the running manager; while Close waits, executions that arrive are released and the
 // poller is let through (all of it recorded); afterwards Add must report ErrManagerClosed and a new manager is started
 // on the same database.
-func (h *harness) closeAndRestart(w *world, tc traceCfg, rng *rand.Rand, mk []func(time.Duration) persistedretry.Task) {
+func (h *harness) closeAndRestart(w *world, tc traceCfg, rng *rand.Rand, mk []func(time.Duration) persistedretry.Task,
+	syncDone chan struct{}) {
 	if !h.evAlive(w, "Close") {
 		return
 	}
@@ -697,6 +698,26 @@ loop:
 			err := w.mgr.Add(mk[i](0))
 			h.evAlive(w, "AddRet", "a", "a1", "task", fmt.Sprintf("t%d", i+1), "res", cls(err))
 		}
+	}
+	// a SyncExec still running on the closed manager is not affected by Close: let it finish before the old world is cut off
+	for t1 := time.Now(); syncDone != nil; {
+		select {
+		case <-syncDone:
+			syncDone = nil
+			continue
+		default:
+		}
+		if w.dead.Load() {
+			return
+		}
+		if time.Since(t1) > longWait {
+			h.abort("SyncExec did not return")
+			return
+		}
+		if a := w.takeExec(0); a != nil {
+			a.rel <- true
+		}
+		time.Sleep(200 * time.Microsecond)
 	}
 	// the old world must not record anything any more; its database handle is reused
 	h.mu.Lock()
